@@ -33,7 +33,7 @@ package data
 
 //@ contract NewIntegerFromInt(value int, size int) (integer *Integer, err error)
 //@   ensures @C12 (err == nil) == (value >= 0 && 1 <= size && size <= 8 && fitsIn(uint64(value), size))
-//@   ensures @C12 err == nil ==> integer != nil && len(*integer) == size && val(*integer) == uint64(value) && fresh(*integer)
+//@   ensures @C12 err == nil ==> integer != nil && len(*integer) == size && cap(*integer) == size && val(*integer) == uint64(value) && fresh(*integer)
 //@   ensures err != nil ==> integer == nil
 //@   modifies nothing
 
